@@ -11,7 +11,7 @@ TRUSTED = pc.TRUSTED
 def run(ctx):
     ctx.add_obligations(vcheck.coq_props("Planner", "C10"))
     ctx.cov["checker_cmd"] = "coqc -Q coq/Planner BWPlanner coq/Planner/Props/C10.v; h_query -mode gen -family c10; model and spec (left outer join) evaluated by vm_compute"
-    n = 6000 if ctx.tier == "thorough" else 500
+    n = 4000 if ctx.tier == "thorough" else 500
     args = ["-family", "c10", "-n", str(n)] + (["-exhaustive"] if ctx.tier == "thorough" else [])
     cases, verd = pc.run_family(ctx, "C10", args,
                                 "first clause plain, then 1-3 further clauses of which at least one is OPTIONAL: chains, clauses sharing 0/1/2 "
